@@ -118,6 +118,16 @@ let check_builder_line (line:string) : unit =
      | Panic -> mismatch "model_panic" (e ^ " builder_from_str panics in the model"));
     let (res, safe) = strip_safe (String.trim f3) in
     if res = "PANIC" then mismatch "oracle_panic" (e ^ " try_from panicked");
+    (* accept_sound judged on what the IMPLEMENTATION accepted (its own board, re-read from the
+       neutral encoding), whatever the model says *)
+    if String.length res > 3 && String.sub res 0 3 = "OK " then begin
+      match String.split_on_char '~' (String.sub res 3 (String.length res - 3)) with
+      | enc_impl :: _ ->
+        let bi = from_builder_raw (builder_of_enc enc_impl) in
+        (match accept_sound bi with Some why -> mismatch "oracle_accept_sound" (Printf.sprintf "%s accepted by the library but: %s" e why) | None -> ());
+        if movelist_overflow bi then mismatch "oracle_unsafe" (e ^ " accepted board has more move-list entries than the list holds")
+      | _ -> ()
+    end;
     (match try_from_builder bb with
      | Some b ->
        bump "builders_accepted";
